@@ -75,6 +75,26 @@ Example C10_small_blank_pass :
   lex_view variant_of_source ex_small_blank_pass = Some [ (TSmallPass, [], false); (TNumber, [51]%Z, false) ].
 Proof. vm_compute. reflexivity. Qed.
 
+(* ---- separators INSIDE the multi-word keywords are part of the statement: [wf_layout] lets every slot of a
+   multi-word keyword carry one whitespace run per continuation word ([s_inner]), non-empty, of any length and any
+   mix of space / TAB / LF / FF / CR (no comment: the scanner's look-ahead does not skip comments).  The same
+   statement for a keyword on its own: *)
+Theorem C10_multiword_internal_separators :
+  forall v k inner,
+  tk_ok (KMulti k) = true -> inner_ok (KMulti k) inner = true ->
+  lex_view v (tk_text (KMulti k) inner) = Some [(k, [], false)].
+Proof. exact multiword_internal_separators. Qed.
+Print Assumptions C10_multiword_internal_separators.
+
+(* the hypothesis is satisfiable for every multi-word keyword of the regenerated table with runs far longer
+   than any fixed look-ahead window: 300 blanks, then 300 x LF (a run of any length is admissible:
+   LayoutProofs.ws_run_ok_repeat) *)
+Example C10_every_multiword_keyword_long_runs :
+  forallb (fun e => forallb (fun alt =>
+      tk_ok (KMulti (snd alt)) &&
+      inner_ok (KMulti (snd alt)) (map (fun _ => repeat 32%Z 300 ++ repeat 10%Z 300) (fst alt))) (snd e)) multi_table = true.
+Proof. vm_compute. reflexivity. Qed.
+
 (* ================================================================== round 2: the parser half
    theories/Parser.v (token-level transcription of src/syntax/parser.rs, tied to the code by the PARSER
    correspondence which this check runs as an extra stream).  Statements as in Properties/PARSER.v. *)
